@@ -27,7 +27,9 @@ class _Return(Exception):
 
 
 class Evaluator:
-    def __init__(self, env: dict, folder: Folder | None = None, mod=None):
+    def __init__(self, env: dict, folder: Folder | None = None, mod=None, opaque_calls=()):
+        self.actions: list[str] = []
+        self.opaque_calls = tuple(opaque_calls)
         self.env = dict(env)
         self.folder = folder
         self.mod = mod
@@ -104,7 +106,9 @@ class Evaluator:
 
     def _block(self, stmts):
         for st in stmts:
-            if isinstance(st, ast.Expr):
+            if isinstance(st, ast.Expr) and isinstance(st.value, ast.Call) and self.opaque_calls and any(ast.unparse(st.value).startswith(p) for p in self.opaque_calls):
+                self.actions.append(ast.unparse(st))
+            elif isinstance(st, ast.Expr):
                 if isinstance(st.value, ast.Constant):
                     continue
                 self.ev(st.value)
@@ -114,6 +118,30 @@ class Evaluator:
                 self.env[st.target.id] = self.ev(st.value)
             elif isinstance(st, ast.AugAssign) and isinstance(st.target, ast.Name) and type(st.op) in _BIN:
                 self.env[st.target.id] = _BIN[type(st.op)](self.env[st.target.id], self.ev(st.value))
+            elif isinstance(st, ast.Assign) and len(st.targets) == 1 and isinstance(st.targets[0], ast.Subscript):
+                t = st.targets[0]
+                base = self.ev(t.value)
+                if not isinstance(base, dict):
+                    raise AnalysisError(f"dtable: store into non-table `{ast.unparse(t.value)}`")
+                base[self.ev(t.slice)] = self.ev(st.value)
+                self.actions.append(ast.unparse(st))
+            elif isinstance(st, ast.Assign) and len(st.targets) >= 1 and all(isinstance(t, (ast.Name, ast.Attribute)) for t in st.targets):
+                v = self.ev(st.value)
+                for t in st.targets:
+                    self.env[ast.unparse(t)] = v
+                self.actions.append(ast.unparse(st))
+            elif isinstance(st, ast.Delete) and all(isinstance(t, ast.Subscript) for t in st.targets):
+                for t in st.targets:
+                    base = self.ev(t.value)
+                    base.pop(self.ev(t.slice), None)
+                self.actions.append(ast.unparse(st))
+            elif isinstance(st, ast.Expr) and isinstance(st.value, ast.Call) and self.opaque_calls and any(ast.unparse(st.value).startswith(p) for p in self.opaque_calls):
+                self.actions.append(ast.unparse(st))
+            elif isinstance(st, ast.Raise):
+                self.actions.append("raise " + (ast.unparse(st.exc.func) if isinstance(st.exc, ast.Call) else ast.unparse(st.exc) if st.exc else ""))
+                raise _Return(None)
+            elif isinstance(st, ast.Assert):
+                pass
             elif isinstance(st, ast.If):
                 self._block(st.body if self.ev(st.test) else st.orelse)
             elif isinstance(st, ast.Return):
